@@ -76,5 +76,46 @@ def main(argv):
     atheris.Fuzz()
 
 
+import subprocess
+import tempfile
+
+
+def campaign(rec, ctx, pid, runs, max_len):
+    td = tempfile.mkdtemp(prefix="vf-fuzz-", dir=os.environ.get("VERIF_WORKER_TMP"))
+    kind = "empty" if ctx.k % 2 == 0 else "seeded"
+    try:
+        p = subprocess.run(
+            [sys.executable, "-m", "vf.fuzz", pid, td, str(ctx.hseed("atheris") % 2_000_000_000), str(runs), str(max_len), kind],
+            stdout=subprocess.DEVNULL,
+            stderr=subprocess.PIPE,
+            text=True,
+            timeout=3600 * 3,
+        )
+    except subprocess.TimeoutExpired:
+        rec.inconclusive["atheris-campaign-timeout"] += 1
+        return
+    path = os.path.join(td, "rec.json")
+    if not os.path.exists(path):
+        rec.notes["atheris"] = f"unavailable: {p.stderr[-300:]}"
+        return
+    with open(path) as f:
+        d = json.load(f)
+    rec.evaluations += d["evaluations"]
+    rec.nontrivial.update(d["nontrivial"])
+    rec.samples.extend(d["samples"][:2])
+    rec.hist.update(d["hist"])
+    rec.inconclusive.update(d["inconclusive"])
+    for fid, v in d["known_hits"].items():
+        slot = rec.known_hits.setdefault(fid, {"count": 0, "example": v["example"], "signature": v["signature"]})
+        slot["count"] += v["count"]
+    for slot in d["failures"]:
+        cur = rec.failures.get(slot["signature"])
+        if cur is None or slot["size"] < cur["size"]:
+            rec.failures[slot["signature"]] = slot
+    rec.notes["atheris"] = "ran"
+    rec.hist[f"atheris-corpus:{kind}"] += d["evaluations"]
+
+
+
 if __name__ == "__main__":
     main(sys.argv[1:])
